@@ -43,7 +43,9 @@ CONSTANTS QLow,        \* QLow[l+1]  : integer b with 2^b <= Q_l        (l = 0..
           HasKeyFor(_),  \* which Galois elements have a key in the instance's key set
           SeedWords,   \* number of u64 words needed to store flag+seed (9)
           PrimeOffset, \* number of data primes that even the last level keeps beyond the first one (0 for a full chain)
-          TagMsgs      \* TRUE: handles remember which message they were encoded from (finer typestate classes)
+          TagMsgs,     \* TRUE: handles remember which message they were encoded from (finer typestate classes)
+          TagAlias     \* TRUE: handles remember that they were computed from ONE object used as both operands (x - x, x + x, x * x
+                       \*       and what is derived from those alone): degenerate ciphertexts (all-zero polynomials, zero residues)
 
 VARIABLES pool,     \* [CtSlots \cup PtSlots -> Handle]
           nsteps    \* number of actions taken
@@ -75,7 +77,7 @@ NfD(a, l) == [a EXCEPT ![l+2] = a[l+2] + 1]
 
 Empty == [kind |-> "none", size |-> 0, lvl |-> 0, ntt |-> FALSE, cf |-> 1, seeded |-> FALSE,
           valid |-> TRUE, sc |-> "1", sce |-> 0, scl |-> 0, scn |-> NfOne, pt |-> <<>>, nb |-> 0, mb |-> 0, exact |-> TRUE,
-          cfany |-> FALSE, why |-> "", tag |-> 0]
+          cfany |-> FALSE, why |-> "", tag |-> 0, alias |-> FALSE, key |-> 1]
 
 (***************************************************************************)
 (* Noise accounting (DESIGN Appendix B), in bits, deliberately loose.      *)
@@ -133,10 +135,15 @@ BadCt(h) == IsCt(h) /\ (~h.valid \/ h.seeded)      \* must be refused by every e
 UsablePt(h) == IsPt(h) /\ h.valid
 SeedFits(l) == N * NPrimes(l) >= SeedWords
 
-VAdd(a, b) == IF IsCkks THEN CAdd(a, b) ELSE PAdd(a, b)
-VSub(a, b) == IF IsCkks THEN CSub(a, b) ELSE PSub(a, b)
+\* CKKS slot values are unbounded integers; TLC's are 32-bit.  Beyond these magnitudes (only reached by long recorded
+\* programs) the value is no longer tracked: it becomes VZero and the handle is marked inexact, which is sticky.
+VMagC(v)   == IF IsCkks /\ v # <<>> THEN BitLen(CMaxAbs(v)) ELSE 0
+SafeAdd(a, b) == VMagC(a) <= 28 /\ VMagC(b) <= 28
+SafeMul(a, b) == VMagC(a) + VMagC(b) <= 28
+VAdd(a, b) == IF IsCkks THEN (IF SafeAdd(a, b) THEN CAdd(a, b) ELSE CZero) ELSE PAdd(a, b)
+VSub(a, b) == IF IsCkks THEN (IF SafeAdd(a, b) THEN CSub(a, b) ELSE CZero) ELSE PSub(a, b)
 VNeg(a)    == IF IsCkks THEN CNeg(a) ELSE PNeg(a)
-VMul(a, b) == IF IsCkks THEN CMul(a, b) ELSE PMul(a, b)
+VMul(a, b) == IF IsCkks THEN (IF SafeMul(a, b) THEN CMul(a, b) ELSE CZero) ELSE PMul(a, b)
 VZero      == IF IsCkks THEN CZero ELSE PZero
 VOfMsg(m)  == IF IsCkks THEN CFromSeq(Msgs[m]) ELSE PFromSeq(Msgs[m])
 VMag(v)    == IF IsCkks THEN BitLen(CMaxAbs(v)) ELSE 0
@@ -153,6 +160,9 @@ RAny(w)     == [v |-> "any", h |-> [Empty EXCEPT !.why = w]]
 (***************************************************************************)
 \* A plaintext holding message m.  BFV/BGV: coefficient form.  CKKS: NTT form at level l, scale 2^e.
 EncodeRes(m, l, e) ==
+  IF IsCkks /\ e >= QHigh[l+1] THEN RRefuse("scale out of bounds")             \* C12: a scale that does not fit the level's modulus
+  ELSE IF IsCkks /\ e + VMag(VOfMsg(m)) + 2 >= QLow[l+1] THEN RAny("scaled message near the modulus")
+  ELSE
   ROk([Empty EXCEPT !.kind = "pt", !.lvl = IF IsCkks THEN l ELSE 0, !.ntt = IsCkks,
             !.sc = IF IsCkks THEN ScP(e) ELSE "1", !.sce = IF IsCkks THEN e ELSE 0,
             !.scl = IF IsCkks THEN e ELSE 0,
@@ -168,7 +178,8 @@ EncryptRes(p, mode) ==
        IN ROk([Empty EXCEPT !.kind = "ct", !.size = 2, !.lvl = l, !.ntt = DefaultNtt,
                     !.seeded = (mode = "skseed" /\ SeedFits(l)), !.tag = p.tag,
                     !.sc = p.sc, !.sce = p.sce, !.scl = p.scl, !.scn = p.scn, !.pt = p.pt, !.mb = p.mb,
-                    !.nb = IF IsCkks THEN Max2(p.nb, NoiseFresh(p.scl)) + 1 ELSE NoiseFresh(0)])
+                    !.nb = IF IsCkks THEN Max2(p.nb, NoiseFresh(p.scl)) + 1 ELSE NoiseFresh(0),
+                    !.exact = p.exact])        \* a plaintext obtained by decrypting beyond the noise limit holds an unknown value
 
 EncryptZeroRes(l, mode) ==
   ROk([Empty EXCEPT !.kind = "ct", !.size = 2, !.lvl = l, !.ntt = DefaultNtt,
@@ -186,9 +197,10 @@ DecryptRes(c) ==
   IF ~IsCt(c) THEN RAny("not a ciphertext")
   ELSE IF BadCt(c) THEN RRefuse("invalid or seeded ciphertext")
   ELSE IF c.ntt # DefaultNtt THEN RRefuse("representation not accepted by decrypt")
+  ELSE IF c.key # 1 THEN RAny("ciphertext under another secret key")
   ELSE ROk([Empty EXCEPT !.kind = "pt", !.lvl = IF IsCkks THEN c.lvl ELSE 0, !.ntt = IsCkks, !.tag = c.tag,
                  !.sc = c.sc, !.sce = c.sce, !.scl = c.scl, !.scn = c.scn, !.pt = c.pt, !.mb = c.mb, !.nb = c.nb,
-                 !.exact = c.exact /\ ExactOk(c.nb, c.lvl)])
+                 !.exact = c.exact /\ ExactOk(c.nb, c.lvl) /\ (IsCkks => c.mb + c.sce + 2 < QLow[c.lvl+1])])
 
 (***************************************************************************)
 (* Ciphertext-ciphertext operations                                        *)
@@ -206,6 +218,7 @@ AddSubRes(a, b, sub) ==
   ELSE IF BadCt(a) \/ BadCt(b) THEN RRefuse("invalid or seeded ciphertext")
   ELSE IF a.lvl # b.lvl THEN RRefuse("different levels")
   ELSE IF a.ntt # b.ntt THEN RRefuse("different representations")
+  ELSE IF a.key # b.key THEN RAny("ciphertexts under different secret keys")
   ELSE IF IsCkks /\ (a.scl < 1 \/ b.scl < 1) /\ a.sc # b.sc THEN RAny("scales below 2 are outside the property's range")
   ELSE IF ScalesDisagree(a, b) THEN RRefuse("scales disagree")
   ELSE IF ~ScalesSame(a, b) THEN RAny("scales equal as reals but produced differently")
@@ -215,7 +228,7 @@ AddSubRes(a, b, sub) ==
            bal == IF samecf THEN [cf |-> a.cf, e1 |-> 1, e2 |-> 1] ELSE Balance(a.cf, b.cf)
            nb == IF IsBgv /\ ~samecf THEN Max2(a.nb, b.nb) + TBits + 1 ELSE Max2(a.nb, b.nb) + 1
        IN ROk([a EXCEPT !.size = sz, !.pt = v, !.cf = bal.cf, !.cfany = (a.cfany \/ b.cfany \/ ~samecf),
-                      !.nb = nb, !.mb = Max2(a.mb, b.mb) + 1, !.exact = a.exact /\ b.exact])
+                      !.nb = nb, !.mb = Max2(a.mb, b.mb) + 1, !.exact = a.exact /\ b.exact /\ SafeAdd(a.pt, b.pt)])
 
 ScaleFits(sce, l) == sce < QHigh[l+1]        \* upper bound of log2(scale) below the bit count: surely fits
 ScaleOver(scl, l) == scl >= QHigh[l+1]       \* lower bound of log2(scale) at or above it: surely does not fit
@@ -231,6 +244,7 @@ MultiplyRes(a, b) ==
   ELSE IF BadCt(a) \/ BadCt(b) THEN RRefuse("invalid or seeded ciphertext")
   ELSE IF a.lvl # b.lvl THEN RRefuse("different levels")
   ELSE IF a.ntt # DefaultNtt \/ b.ntt # DefaultNtt THEN RRefuse("representation not accepted by multiply")
+  ELSE IF a.key # b.key THEN RAny("ciphertexts under different secret keys")
   ELSE IF a.size + b.size - 1 > 16 THEN RAny("result size above the library limit")
   ELSE IF IsCkks /\ ScaleOver(a.scl + b.scl, a.lvl) THEN RRefuse("scale out of bounds")
   ELSE IF IsCkks /\ ~ScaleFits(a.sce + b.sce, a.lvl) THEN RAny("scale near the bound")
@@ -239,7 +253,7 @@ MultiplyRes(a, b) ==
                   !.sc = IF IsCkks THEN ScM(a.sc, b.sc) ELSE "1", !.sce = a.sce + b.sce, !.scl = a.scl + b.scl,
                   !.scn = IF IsCkks THEN NfM(a.scn, b.scn) ELSE NfOne,
                   !.nb = MulNoise(a, b), !.mb = a.mb + b.mb + 1,
-                  !.exact = a.exact /\ b.exact /\ a.size + b.size - 1 <= MaxSize])
+                  !.exact = a.exact /\ b.exact /\ a.size + b.size - 1 <= MaxSize /\ SafeMul(a.pt, b.pt)])
 
 \* k key switches, each adding at most 2^KsBits to the phase
 KsNoiseK(a, k) ==
@@ -254,6 +268,7 @@ RelinRes(a) ==
   ELSE IF a.size = 2 /\ a.ntt # DefaultNtt THEN RAny("nothing to compute on")
   ELSE IF a.ntt # DefaultNtt THEN RRefuse("representation not accepted by relinearize")
   ELSE IF a.size = 2 THEN ROk(a)
+  ELSE IF a.key # 1 THEN RAny("the relinearization key belongs to the context's secret key")
   ELSE IF a.size > 3 THEN RAny("only one relinearization key is generated")
   ELSE ROk([a EXCEPT !.size = 2, !.nb = KsNoise(a)])
 
@@ -276,7 +291,7 @@ AddSubPlainRes(a, p, sub) ==
   ELSE IF IsCkks /\ a.sc # p.sc THEN RAny("scales equal as reals but produced differently")
   ELSE ROk([a EXCEPT !.pt = IF sub THEN VSub(a.pt, p.pt) ELSE VAdd(a.pt, p.pt),
                   !.nb = IF IsCkks THEN Max2(a.nb, p.nb) + 1 ELSE Max2(a.nb, TBits + TBits) + 1,
-                  !.mb = Max2(a.mb, p.mb) + 1])
+                  !.mb = Max2(a.mb, p.mb) + 1, !.exact = a.exact /\ p.exact /\ SafeAdd(a.pt, p.pt)])
 
 MulPlainRes(a, p) ==
   IF ~IsCt(a) \/ ~IsPt(p) THEN RAny("wrong operand kinds")
@@ -290,7 +305,7 @@ MulPlainRes(a, p) ==
                   !.scn = IF IsCkks THEN NfM(a.scn, p.scn) ELSE NfOne,
                   !.nb = IF IsCkks THEN Max2(Max2(a.mb + p.nb, p.mb + a.nb), a.nb + p.nb) + 2
                          ELSE a.nb + LogN + TBits,
-                  !.mb = a.mb + p.mb + 1])
+                  !.mb = a.mb + p.mb + 1, !.exact = a.exact /\ p.exact /\ SafeMul(a.pt, p.pt)])
 
 (***************************************************************************)
 (* Representation changes                                                  *)
@@ -329,6 +344,7 @@ ScaleDown(a) ==
                !.sce = IF IsCkks THEN a.sce - (PBits[l+1] - 1) ELSE a.sce,
                !.scl = IF IsCkks THEN a.scl - PBits[l+1] ELSE a.scl,
                !.scn = IF IsCkks THEN NfD(a.scn, l) ELSE a.scn,
+               !.exact = a.exact /\ (IsCkks => a.mb + a.sce + 2 < QLow[l+1]),   \* dividing a value that wrapped around the modulus
                !.nb = nb]
 \* one step of the dropping switch (CKKS mod switch): scale and message unchanged
 DropDown(a) == [a EXCEPT !.lvl = a.lvl - 1]
@@ -385,6 +401,7 @@ GaloisValue(v, g) ==
 GaloisRes(a, g) ==
   IF ~IsCt(a) THEN RAny("not a ciphertext")
   ELSE IF BadCt(a) THEN RRefuse("invalid or seeded ciphertext")
+  ELSE IF a.key # 1 THEN RAny("the Galois keys belong to the context's secret key")
   ELSE IF a.ntt # DefaultNtt THEN RAny("key switching outside the scheme's default representation")
   ELSE IF ~HasKeyFor(g) THEN RRefuse("no Galois key for the element")
   ELSE IF a.size > 2 THEN RAny("size above 2")
@@ -394,6 +411,7 @@ GaloisRes(a, g) ==
 RotateRes(a, s) ==
   IF ~IsCt(a) THEN RAny("not a ciphertext")
   ELSE IF BadCt(a) THEN RRefuse("invalid or seeded ciphertext")
+  ELSE IF a.key # 1 THEN RAny("the Galois keys belong to the context's secret key")
   ELSE IF a.ntt # DefaultNtt THEN RAny("key switching outside the scheme's default representation")
   ELSE IF a.size > 2 THEN RAny("size above 2")
   ELSE IF s = 0 \/ Abs(s) >= Half THEN RAny("step outside 0<|s|<N/2")
@@ -402,9 +420,27 @@ RotateRes(a, s) ==
 ConjRes(a) ==       \* rotate_columns (BFV/BGV) / complex_conjugate (CKKS)
   IF ~IsCt(a) THEN RAny("not a ciphertext")
   ELSE IF BadCt(a) THEN RRefuse("invalid or seeded ciphertext")
+  ELSE IF a.key # 1 THEN RAny("the Galois keys belong to the context's secret key")
   ELSE IF a.ntt # DefaultNtt THEN RAny("key switching outside the scheme's default representation")
   ELSE IF a.size > 2 THEN RAny("size above 2")
   ELSE ROk([a EXCEPT !.pt = GaloisValue(a.pt, M2 - 1), !.nb = KsNoise(a)])
+
+(***************************************************************************)
+(* Switching to another secret key (C04).  key = 1: the context's secret   *)
+(* key s; key = 2: a second secret key s2 of the same context.  The        *)
+(* key-switching key is generated by the key generator of s for s2, i.e.   *)
+(* it turns a two-component ciphertext under s2 into one under s.          *)
+(***************************************************************************)
+EncryptOtherRes(p, mode) ==
+  LET r == EncryptRes(p, mode) IN IF r.v = "ok" THEN ROk([r.h EXCEPT !.key = 2]) ELSE r
+
+KeySwitchRes(a) ==
+  IF ~IsCt(a) THEN RAny("not a ciphertext")
+  ELSE IF BadCt(a) THEN RRefuse("invalid or seeded ciphertext")
+  ELSE IF a.size # 2 THEN RAny("only two-component ciphertexts are switched")
+  ELSE IF a.key # 2 THEN RAny("not under the key the switching key was generated for")
+  ELSE IF a.ntt # DefaultNtt THEN RAny("key switching outside the scheme's default representation")
+  ELSE ROk([a EXCEPT !.key = 1, !.nb = KsNoise(a)])
 
 (***************************************************************************)
 (* Single-field corruptions (C06)                                          *)
@@ -432,12 +468,12 @@ ValSeq(h) == IF h.kind = "none" \/ h.pt = <<>> THEN <<>>
              ELSE IF IsCkks THEN CToSeq(h.pt) ELSE PToSeq(h.pt)
 Proj(h) == [kind |-> h.kind, size |-> h.size, lvl |-> h.lvl, ntt |-> h.ntt, cf |-> h.cf, cfany |-> h.cfany,
             seeded |-> h.seeded, valid |-> h.valid, why |-> h.why, sc |-> h.sc, val |-> ValSeq(h),
-            nb |-> h.nb,
+            nb |-> h.nb, key |-> h.key,
             cmp |-> (h.exact /\ (h.kind = "ct" => ExactOk(h.nb, h.lvl))
                              /\ (IsCkks /\ h.kind # "none" => h.mb + h.sce + 2 < QLow[h.lvl+1] /\ h.scl >= 1))]
 
 \* typestate of a handle (what decides the verdict of every action)
-TypeOf(h) == <<h.kind, h.size, h.lvl, h.ntt, h.cf, h.seeded, h.valid, h.why, h.sc, h.tag>>
+TypeOf(h) == <<h.kind, h.size, h.lvl, h.ntt, h.cf, h.seeded, h.valid, h.why, h.sc, h.tag, h.alias, h.key>>
 
 Init == /\ pool = [s \in CtSlots \cup PtSlots |-> Empty]
         /\ nsteps = 0
@@ -445,8 +481,12 @@ Init == /\ pool = [s \in CtSlots \cup PtSlots |-> Empty]
 
 \* CKKS: the magnitude bound of a result is read off the exact value the specification carries
 Norm(h) == IF IsCkks /\ h.kind # "none" /\ h.pt # <<>> THEN [h EXCEPT !.mb = VMag(h.pt)] ELSE h
+AliasOf(act) ==
+  IF act.op \in {"add", "sub", "multiply"} THEN act.a = act.b \/ (pool[act.a].alias /\ pool[act.b].alias)
+  ELSE IF act.a # "" /\ act.op # "decrypt" THEN pool[act.a].alias
+  ELSE FALSE
 Apply(act, res0, d) ==
-  LET res == [res0 EXCEPT !.h = Norm(res0.h)] IN
+  LET res == [res0 EXCEPT !.h = [Norm(res0.h) EXCEPT !.alias = TagAlias /\ res0.v = "ok" /\ res0.h.kind = "ct" /\ AliasOf(act)]] IN
   /\ nsteps < MaxSteps
   /\ nsteps' = nsteps + 1
   /\ hist' = Append(hist, [act |-> act, dst |-> d, v |-> res.v, out |-> Proj(res.h)])
@@ -459,6 +499,9 @@ Encrypt  == \E d \in CtSlots, p \in PtSlots, mode \in Modes :
               Apply([NoAct EXCEPT !.op = "encrypt", !.p = p, !.mode = mode], EncryptRes(pool[p], mode), d)
 EncryptZero == \E d \in CtSlots, l \in Levels, mode \in Modes :
               Apply([NoAct EXCEPT !.op = "encrypt_zero", !.lvl = l, !.mode = mode], EncryptZeroRes(l, mode), d)
+EncryptOther == \E d \in CtSlots, p \in PtSlots, mode \in Modes :
+              Apply([NoAct EXCEPT !.op = "encrypt_other", !.p = p, !.mode = mode], EncryptOtherRes(pool[p], mode), d)
+KeySwitch == \E a \in CtSlots, d \in CtSlots : Apply([NoAct EXCEPT !.op = "keyswitch", !.a = a], KeySwitchRes(pool[a]), d)
 Expand   == \E a \in CtSlots : Apply([NoAct EXCEPT !.op = "expand", !.a = a], ExpandRes(pool[a]), a)
 Decrypt  == \E a \in CtSlots, d \in PtSlots : Apply([NoAct EXCEPT !.op = "decrypt", !.a = a], DecryptRes(pool[a]), d)
 Negate   == \E a \in CtSlots, d \in CtSlots : Apply([NoAct EXCEPT !.op = "negate", !.a = a], NegateRes(pool[a]), d)
@@ -506,7 +549,7 @@ Next == \/ Encode \/ Encrypt \/ EncryptZero \/ Expand \/ Decrypt
         \/ ToNtt \/ FromNtt \/ PlainToNtt
         \/ ModSwitchNext \/ ModSwitchTo \/ RescaleNext \/ RescaleTo
         \/ ModSwitchPlainNext \/ ModSwitchPlainTo
-        \/ Galois \/ Rotate \/ Conj \/ Corrupt
+        \/ Galois \/ Rotate \/ Conj \/ Corrupt \/ EncryptOther \/ KeySwitch
 
 Spec == Init /\ [][Next]_allvars
 
